@@ -55,7 +55,7 @@ def consistency_problems(w):
         where = listed[i]
         if len(where) > 1:
             probs.append('node %d is listed %d times: %s' % (i, len(where), where))
-        outside_root = w.attached and i == 0
+        outside_root = i in w.roots
         if n.parentNode is None:
             if where:
                 probs.append('node %d has no parent but is listed under %d' % (i, where[0][0]))
